@@ -261,7 +261,7 @@ def chunking_within(rng, stream, maxlen):
     """Random chunking with every chunk at most maxlen bytes (>= 1)."""
     res, i = [], 0
     while i < len(stream):
-        n = rng.choice([1, 2, 7, 8, 9, maxlen, max(1, maxlen - 1), rng.randint(1, maxlen)])
+        n = min(maxlen, rng.choice([1, 2, 7, 8, 9, maxlen, max(1, maxlen - 1), rng.randint(1, maxlen)]))
         res.append(stream[i:i + n])
         i += n
         if rng.random() < 0.02:
